@@ -278,7 +278,7 @@ def scratch_copy(repo):
 def run_witness(u, repo, bdir):
     """Run the unit's witness search against a scratch copy of the working tree.
     Returns dict(found: bool, output: str, cmd: str)."""
-    w = u.get("witness")
+    w = (u.get("witness_by_property") or {}).get(u.get("_for_property")) or u.get("witness")
     if not w:
         return {"found": False, "output": "", "cmd": "", "note": "no witness search defined for this unit"}
     sc = scratch_copy(repo)
